@@ -22,6 +22,8 @@ EDGE = ["*", "**a", "a**", "* a *", "*a", "a*", "_", "__", "*_*", "**", "***", "
         "- a\n\n- b", "- a\n- b\n\n  c", "1. a\n   - b\n   - c\n2. d", "> - a\n> - b", "- > a", "-\n-", "- \n\n  a", "*a*\n*b*", "a\n*\nb", "`*`*", "\\**a*", "&amp;*a*", "![*a*](u)*", "<http://a.b>*",
         # paragraph lines that look like block starts only to a look-ahead (or only to the real call), in tight items
         "- foo\n  ``` a`b", "- foo\n  ```a`", "1. foo\n   ~~~ x", "- foo\n  # h", "- foo\n  1) x", "- foo\n  2) x", "- foo\n  ***", "- foo\n  <div>", "- foo\n  <x-y>", "- a\n  > b",
+        # a backslash as the very last character of inline content, after text (seed C14-9)
+        "foo\\", "# foo\\", "- foo\\\n- b\\", "foo\\\n\nbar\\", "> a\\", "a\\\n===", "foo \\", "foo\\\\", "*a*\\", "a&amp;\\", "[a\\](u)", "a\\\nb\\",
         "- foo\n      code", "- foo\n  [r]: /u", "- foo\n  ===", "- foo\n  - ", "- foo\n  @@@"]
 
 
@@ -41,6 +43,15 @@ def cases(rng, tier, Case):
                       "x ![" * k + "](u) y" * k, "%" * 1 + "![" * k + "](u)" * k + " %"):
                 for cfg in ("nebliatcfqhurHLp", "lip", "eblip8", "CsW"):
                     res.append(Case("parse %s %d T %s" % (cfg, nest, hx(d)), "limit", {"cfg": cfg, "src": hx(d)}, compare=len(d) < 400))
+    # emphasis nested deeper than any traversal limit one might assume (the nesting limit does not bound it), with an
+    # unmatched delimiter in the innermost level: the clean-up pass must reach it (seed C14-10)
+    for depth in (200, 255, 256, 257, 300) if tier == "quick" else (100, 200, 254, 255, 256, 257, 258, 300, 511, 512, 513, 700):
+        for op, cl in (("*a ", " a*"), ("~~a ", " a~~"), ("_a ", " a_"), ("**a ", " a**")):
+            for inner in ("_", "~", "*", "x _ y ~ z", "`"):
+                if inner in op:
+                    continue
+                d = op * depth + inner + cl * depth
+                res.append(Case("parse CsW 100 T %s" % hx(d), "deepemph", {"cfg": "CsW", "src": hx(d)}, compare=(depth == 257 and inner == "_")))
     for i, d in enumerate(corpus.spec_inputs()):
         if tier == "quick" and i % 4:
             continue
